@@ -502,18 +502,21 @@ class SymDefaultDictOfLists(SymObject):
     """collections.defaultdict(list) with symbolic (int-coded) keys: an array key -> z3 Seq, plus the
     sequence of distinct keys in insertion order (ghost, for iteration / emptiness)."""
 
-    def __init__(self, arr=None):
+    def __init__(self, arr=None, present=None):
         self.arr = arr if arr is not None else z3.K(INT, z3.Empty(SEQ))
+        self.present = present if present is not None else z3.K(INT, False)
 
     def sym_getitem(self, interp, k):
-        return DictSlot(self, key_code(k))
+        kc = key_code(k)
+        self.present = z3.Store(self.present, kc, True)      # a defaultdict inserts on access
+        return DictSlot(self, kc)
 
     def sym_setitem(self, interp, k, v):
         self.arr = z3.Store(self.arr, key_code(k), as_seq(v))
-        cur().ghost.setdefault("dict_ops", []).append("assign")
+        self.present = z3.Store(self.present, key_code(k), True)
 
     def contains(self, k):
-        raise Inapplicable("membership in a symbolic defaultdict (presence is not modelled)")
+        return mkbool(z3.Select(self.present, key_code(k)))
 
     def sym_getattr(self, interp, name):
         raise Inapplicable(f"defaultdict.{name} on the symbolic model")
